@@ -3,6 +3,15 @@ Driver for Model/Access.lean at α = ℚ (stateful: context and labels):   lake 
   ctx <psat|~> <7 env> <T|F>          lab <pmode> <punit> <lbasis> <lunit> <mbasis> <munit> <tunit>
   aP v pm pu | aLT v lb lu mb mu | aLS v lb lu mb mu | iP v pm pu | oPP v pm pu | oPM v pm pu | iL <T|F> v lb lu mb mu
   split [ps] | lim [vs] <lo|~|-> <hi|~|->  (`- -` = limits not given) | br [marks] <branch|~> | il [ps] [ls] x
+whole accessors (limits `lo hi` as for `lim`):
+  colP [vals] [marks] branch pm pu lo hi | colL [vals] [marks] branch lb lu mb mu lo hi | colO <T|F> [vals] [marks] branch lo hi
+  hb [marks] branch | mhb own branch | ord branch [xs] | lin a b n
+  mP a b n own branch pm pu lo hi | mL K a b n own branch lb lu mb mu lo hi   (Henry model `K * p`)
+  fli [xs] lo hi smallest
+  lat [ps] [ls] q pm pu lb lu mb mu | pat [ls] [ps] q lb lu mb mu pm pu     (point isotherm, knots increasing)
+  mlat K q pm pu lb lu mb mu | mpat K q lb lu mb mu pm pu                  (Henry model `n = K p`)
+temperature: thm0 | thm T psat <7 env>  (table of the adsorbate at kelvin temperatures; elsewhere: nothing known)
+  tmp traw | kel | aPT v pm pu | aLTT v lb lu mb mu   (state = labels incl. temperature unit + raw temperature)
 -/
 import PgVerif.Model.Access
 import PgVerif.Drv.Proto
@@ -13,6 +22,27 @@ open PgVerif.Model PgVerif.Gen PgVerif.Proto
 structure St where
   c : Ctx ℚ
   lab : Labels
+  temp : ℚ := 0
+  table : List (ℚ × Option ℚ × Env ℚ) := []
+
+def St.thermo (st : St) : Thermo ℚ :=
+  ⟨fun T => (st.table.lookup T).bind (·.1), fun T => match st.table.lookup T with | some e => e.2 | none => fun _ => none⟩
+
+def St.iso (st : St) : Iso ℚ := ⟨st.lab, [], [], st.temp, false, false⟩
+
+def showList (r : Except Err (List ℚ)) : String :=
+  match r with | .ok l => "ok " ++ showRatList l | .error e => "err " ++ e.name
+
+def parseLimits (a b : String) : Option (Option (Option ℚ × Option ℚ)) :=
+  if a == "-" && b == "-" then some none
+  else match optRat a, optRat b with
+    | some lo, some hi => some (some (lo, hi))
+    | _, _ => none
+
+def parseRows (vals marks : String) : Option (List (ℚ × Nat)) :=
+  match ratList vals, (parseList marks).bind (·.mapM String.toNat?) with
+  | some vs, some ms => if vs.length = ms.length then some (vs.zip ms) else none
+  | _, _ => none
 
 def showRes (r : Except Err ℚ) : String :=
   match r with | .ok q => "ok " ++ showRat q | .error e => "err " ++ e.name
@@ -25,7 +55,96 @@ def mkEnv (l : List (Option Rat)) : Option (Env ℚ) :=
     | .liquidMolarDensity => e | .matDensity => f | .matMolarMass => g
   | _ => none
 
-def stepLine (st : St) (ts : List String) : St × String :=
+/-- requests added for the whole accessors, the model-isotherm columns, `find_limit_indices` and the temperature -/
+def stepNew (st : St) (ts : List String) : Option (St × String) :=
+  match ts with
+  | ["thm0"] => some ({ st with table := [] }, "ok")
+  | "thm" :: T :: ps :: e1 :: e2 :: e3 :: e4 :: e5 :: e6 :: [e7] =>
+    match parseRat T, optRat ps, ([e1, e2, e3, e4, e5, e6, e7].mapM optRat).bind mkEnv with
+    | some T, some ps, some env => some ({ st with table := (T, ps, env) :: st.table }, "ok")
+    | _, _, _ => some (st, "bad-op")
+  | ["tmp", t] =>
+    match parseRat t with
+    | some t => some ({ st with temp := t }, "ok")
+    | none => some (st, "bad-op")
+  | ["kel"] => some (st, showRes (kelvin st.lab.tunit st.temp))
+  | ["aPT", v, pm, pu] =>
+    match parseRat v with
+    | some v => some (st, showRes (accessPressureAt st.thermo st.iso v (optStr pm) (optStr pu)))
+    | none => some (st, "bad-op")
+  | ["aLTT", v, lb, lu, mb, mu] =>
+    match parseRat v with
+    | some v => some (st, showRes (accessLoadingAt st.thermo st.iso v (optStr lb) (optStr lu) (optStr mb) (optStr mu)))
+    | none => some (st, "bad-op")
+  | ["colP", vals, marks, b, pm, pu, lo, hi] =>
+    match parseRows vals marks, parseLimits lo hi with
+    | some rows, some l => some (st, showList (pressureColumn st.c st.lab rows (optStr b) (optStr pm) (optStr pu) l))
+    | _, _ => some (st, "bad-op")
+  | ["colL", vals, marks, b, lb, lu, mb, mu, lo, hi] =>
+    match parseRows vals marks, parseLimits lo hi with
+    | some rows, some l =>
+      some (st, showList (loadingColumn st.c st.lab rows (optStr b) (optStr lb) (optStr lu) (optStr mb) (optStr mu) l))
+    | _, _ => some (st, "bad-op")
+  | ["colO", known, vals, marks, b, lo, hi] =>
+    match parseBool known, parseRows vals marks, parseLimits lo hi with
+    | some k, some rows, some l => some (st, showList (otherColumn k rows (optStr b) l))
+    | _, _, _ => some (st, "bad-op")
+  | ["hb", marks, b] =>
+    match (parseList marks).bind (·.mapM String.toNat?) with
+    | some ms => some (st, match hasBranch ms (optStr b) with
+        | .ok r => "ok " ++ (if r then "T" else "F")
+        | .error e => "err " ++ e.name)
+    | none => some (st, "bad-op")
+  | ["mhb", own, b] => some (st, "ok " ++ (if modelHasBranch own (optStr b) then "T" else "F"))
+  | ["ord", b, xs] =>
+    match ratList xs with
+    | some xs => some (st, "ok " ++ showRatList (orderedForBranch b xs))
+    | none => some (st, "bad-op")
+  | ["lin", a, b, n] =>
+    match parseRat a, parseRat b, n.toNat? with
+    | some a, some b, some n => some (st, "ok " ++ showRatList (linspace a b n))
+    | _, _, _ => some (st, "bad-op")
+  | ["mP", a, b, n, own, br, pm, pu, lo, hi] =>
+    match parseRat a, parseRat b, n.toNat?, parseLimits lo hi with
+    | some a, some b, some n, some l =>
+      some (st, showList (modelPressureColumn st.c st.lab own a b n (optStr br) (optStr pm) (optStr pu) l))
+    | _, _, _, _ => some (st, "bad-op")
+  | ["mL", k, a, b, n, own, br, lb, lu, mb, mu, lo, hi] =>
+    match parseRat k, parseRat a, parseRat b, n.toNat?, parseLimits lo hi with
+    | some k, some a, some b, some n, some l =>
+      some (st, showList (modelLoadingColumn st.c st.lab own (fun p => k * p) a b n (optStr br)
+        (optStr lb) (optStr lu) (optStr mb) (optStr mu) l))
+    | _, _, _, _, _ => some (st, "bad-op")
+  | ["lat", ps, ls, q, pm, pu, lb, lu, mb, mu] =>
+    match ratList ps, ratList ls, parseRat q with
+    | some ps, some ls, some q =>
+      some (st, showRes (pointLoadingAt st.c st.lab ps ls q (optStr pm) (optStr pu) (optStr lb) (optStr lu) (optStr mb) (optStr mu)))
+    | _, _, _ => some (st, "bad-op")
+  | ["pat", ls, ps, q, lb, lu, mb, mu, pm, pu] =>
+    match ratList ls, ratList ps, parseRat q with
+    | some ls, some ps, some q =>
+      some (st, showRes (pointPressureAt st.c st.lab ls ps q (optStr lb) (optStr lu) (optStr mb) (optStr mu) (optStr pm) (optStr pu)))
+    | _, _, _ => some (st, "bad-op")
+  | ["mlat", k, q, pm, pu, lb, lu, mb, mu] =>
+    match parseRat k, parseRat q with
+    | some k, some q =>
+      some (st, showRes (modelLoadingAt st.c st.lab (fun p => k * p) q (optStr pm) (optStr pu) (optStr lb) (optStr lu) (optStr mb) (optStr mu)))
+    | _, _ => some (st, "bad-op")
+  | ["mpat", k, q, lb, lu, mb, mu, pm, pu] =>
+    match parseRat k, parseRat q with
+    | some k, some q =>
+      some (st, showRes (modelPressureAt st.c st.lab (fun l => l / k) q (optStr lb) (optStr lu) (optStr mb) (optStr mu) (optStr pm) (optStr pu)))
+    | _, _ => some (st, "bad-op")
+  | ["fli", xs, lo, hi, sm] =>
+    match ratList xs, parseLimits lo hi, sm.toInt? with
+    | some xs, some l, some sm =>
+      some (st, match findLimitIndices xs l sm with
+        | .ok (i, j) => s!"ok [{i};{j}]"
+        | .error e => "err " ++ e.name)
+    | _, _, _ => some (st, "bad-op")
+  | _ => none
+
+def stepOld (st : St) (ts : List String) : St × String :=
   match ts with
   | "ctx" :: ps :: e1 :: e2 :: e3 :: e4 :: e5 :: e6 :: e7 :: [t] =>
     match optRat ps, ([e1, e2, e3, e4, e5, e6, e7].mapM optRat).bind mkEnv, parseBool t with
@@ -87,5 +206,10 @@ def stepLine (st : St) (ts : List String) : St × String :=
     | none => (st, "bad-op")
   | _ => (st, "bad-op")
 
+def stepLine (st : St) (ts : List String) : St × String :=
+  match stepNew st ts with
+  | some r => r
+  | none => stepOld st ts
+
 def main : IO Unit := do
-  loopS (← IO.getStdin) stepLine ⟨⟨none, fun _ => none, false⟩, ⟨"", none, "", none, "", none, none⟩⟩
+  loopS (← IO.getStdin) stepLine { c := ⟨none, fun _ => none, false⟩, lab := ⟨"", none, "", none, "", none, none⟩ }
